@@ -293,7 +293,8 @@ func Encrypt(pub *PublicKey, data []byte, random io.Reader, mode int) ([]byte, e
 		h := sm3.Sm3Sum(tm)
 		c = append(c, h...)
 		ct, ok := kdf(length, x2Buf, y2Buf) // 密文
-		if !ok {
+		if !ok && length > 0 {
+			// t 全零时重新选取 k; 空明文的 t 为空串, 不能据此重试(否则永不终止)
 			continue
 		}
 		c = append(c, ct...)
